@@ -21,6 +21,14 @@ def num(v):
     return {"n": [f.numerator, f.denominator]}
 
 
+def val_tree(v):
+    """a (possibly complex) value as a closed term"""
+    if isinstance(v, complex) or np.iscomplexobj(v):
+        v = complex(v)
+        return {"add": [num(v.real), {"mul": [num(v.imag), {"fn": "I", "a": [num(1)]}]}]}
+    return num(v)
+
+
 def numval(t):
     return t["n"][0] / t["n"][1]
 
@@ -31,6 +39,9 @@ FN1 = {
     "sin": np.sin, "cos": np.cos, "tan": np.tan, "tanh": np.tanh, "atan": np.arctan, "asinh": np.arcsinh,
     "acosh": np.arccosh, "sinh": np.sinh, "cosh": np.cosh, "exp": np.exp, "log": np.log, "sqrt": np.sqrt,
     "Abs": np.abs, "sign": np.sign,
+    "I": lambda x: 1j * x,                       # imaginary unit times x (complex values travel as re + im*I(1))
+    "f32": lambda x: (np.complex64(x).item() if np.iscomplexobj(x) else float(np.float32(x))),   # dtype=np.float32
+    "f64": lambda x: x,
 }
 FN2 = {"atan2": np.arctan2, "Max": np.maximum, "Min": np.minimum}
 
@@ -72,15 +83,15 @@ def fold(t, free=None, meas=None, track=None):
             a, b = t["pow"]
             x = go(a)
             y = go(b)
-            v = np.power(np.asarray(x, dtype=float), y)
-            v = v.item() if np.ndim(v) == 0 else v
+            v = np.power(np.asarray(x, dtype=complex if np.iscomplexobj(x) or np.iscomplexobj(y) else float), y)
+            v = v.item() if np.ndim(v) == 0 and hasattr(v, "item") else v
         elif "fn" in t:
             args = [go(a) for a in t["a"]]
             f = (FN1 if len(args) == 1 else FN2).get(t["fn"])
             if f is None:
                 raise Unsupported(t["fn"])
             v = f(*args)
-            v = v.item() if np.ndim(v) == 0 else v
+            v = v.item() if np.ndim(v) == 0 and hasattr(v, "item") else v
         else:
             raise Unsupported(str(t))
         if track is not None:
@@ -144,14 +155,33 @@ def gen_expr(rng, depth, free_names, meas_modes, p_atom=0.35):
     return {"mul": [sub(), {"pow": [{"add": [num(2.0), {"fn": "sin", "a": [x]}]}, num(-1)]}]}
 
 
-def well_conditioned(t, free, meas, lim=1e3):
+def well_conditioned(t, free, meas, lim=1e3, cplx=False):
     """True iff the tree evaluates to a finite real number with all intermediates below `lim`"""
     tr = []
     try:
         v = fold(t, free, meas, tr)
     except (Unbound, Unsupported):
         return False
-    return bool(np.all(np.isfinite(v))) and not np.iscomplexobj(v) and all(x < lim and x == x for x in tr)
+    return bool(np.all(np.isfinite(v))) and (cplx or not np.iscomplexobj(v)) and all(x < lim and x == x for x in tr)
+
+
+def gen_poly(rng, depth, free_names, meas_modes):
+    """polynomial expression (sums, products, negation, small powers): meaningful for complex values"""
+    leafs = [("f", n) for n in free_names] + [("m", m) for m in meas_modes]
+    if depth <= 0 or rng.random() < 0.3:
+        if leafs and rng.random() < 0.8:
+            k, v = rng.choice(leafs)
+            return {k: v}
+        return num(rng.choice(CONSTS))
+    kind = rng.choice(["add", "mul", "neg", "pow", "scale"])
+    sub = lambda: gen_poly(rng, depth - 1, free_names, meas_modes)
+    if kind in ("add", "mul"):
+        return {kind: [sub(), sub()]}
+    if kind == "neg":
+        return {"neg": sub()}
+    if kind == "scale":
+        return {"mul": [num(rng.choice(CONSTS)), sub()]}
+    return {"pow": [sub(), num(rng.choice([2, 3]))]}
 
 
 # ------------------------------------------------------------------ tree <-> real objects
@@ -201,6 +231,10 @@ def from_sympy(e):
         return {"m": int(e.regref.ind)}
     if isinstance(e, FreeParameter):
         return {"f": str(e.name)}
+    if e is sympy.I:
+        return {"fn": "I", "a": [num(1)]}
+    if isinstance(e, sympy.Symbol):
+        return {"f": str(e.name)}   # a plain (Blackbird) symbol
     if isinstance(e, (sympy.Integer, sympy.Rational)):
         return {"n": [int(e.p), int(e.q)]}
     if isinstance(e, sympy.Float) or isinstance(e, sympy.NumberSymbol):
@@ -232,6 +266,8 @@ def _nest_fn(name, items):
 def param_to_json(p):
     """real operation parameter -> model `Param` JSON"""
     import sympy
+    if isinstance(p, np.ndarray) and p.ndim == 2:
+        return {"arr2": [[_scalar_json(x) for x in row] for row in (p.tolist() if p.dtype != object else p)]}
     if isinstance(p, np.ndarray):
         return {"arr": [_scalar_json(x) for x in p.tolist()] if p.dtype != object else [_scalar_json(x) for x in p]}
     return {"one": _scalar_json(p)}
@@ -249,12 +285,15 @@ def pval_fold(pv):
     """model PVal (closed terms) -> float / array"""
     if "one" in pv:
         return fold(pv["one"])
-    return np.array([fold(x) for x in pv["arr"]], dtype=float)
+    if "arr2" in pv:
+        return np.array([[fold(x) for x in row] for row in pv["arr2"]])
+    return np.array([fold(x) for x in pv["arr"]])
 
 
 def close(a, b, tol=1e-9):
-    a = np.asarray(a, dtype=float)
-    b = np.asarray(b, dtype=float)
+    cplx = np.iscomplexobj(a) or np.iscomplexobj(b)
+    a = np.asarray(a, dtype=complex if cplx else float)
+    b = np.asarray(b, dtype=complex if cplx else float)
     if a.shape != b.shape:
         return False
     return bool(np.all(np.abs(a - b) <= tol * np.maximum(1.0, np.maximum(np.abs(a), np.abs(b)))))
@@ -264,8 +303,9 @@ def close(a, b, tol=1e-9):
 
 def make_backend(outcomes):
     """a backend that records every API call and returns the measurement outcomes scripted by the
-    harness: `outcomes` is a list consumed in order, one entry (array of shape (shots, modes)) per
-    measurement call"""
+    harness: `outcomes` is a list of arrays of shape (shots, modes) consumed in order, or of pairs
+    (modes, array) — then a measurement of `modes` takes the first entry for exactly these modes (so
+    that a compiler may reorder independent measurements)"""
     from strawberryfields.backends.base import BaseBackend
 
     class Recording(BaseBackend):
@@ -290,9 +330,10 @@ def make_backend(outcomes):
 
         def add_mode(self, n=1, **kwargs):
             self.n += n
+            self.calls.append(("add_mode", (), (n,)))
 
         def del_mode(self, modes):
-            pass
+            self.calls.append(("del_mode", tuple(np.atleast_1d(modes).tolist()), ()))
 
         def get_modes(self):
             return list(range(self.n))
@@ -357,7 +398,14 @@ def make_backend(outcomes):
         def _meas(self, name, modes, shots, args):
             if not self.outcomes:
                 raise RuntimeError("recording backend: no scripted outcome left")
-            v = np.array(self.outcomes.pop(0), dtype=float)
+            key = tuple(int(m) for m in modes)
+            k = next((i for i, o in enumerate(self.outcomes) if isinstance(o, tuple) and tuple(o[0]) == key), None)
+            if k is not None:
+                v = np.array(self.outcomes.pop(k)[1], dtype=float)
+            elif isinstance(self.outcomes[0], tuple):
+                raise RuntimeError(f"recording backend: no scripted outcome for modes {key}")
+            else:
+                v = np.array(self.outcomes.pop(0), dtype=float)
             self.calls.append((name, tuple(int(m) for m in modes), tuple(args) + (("shots", shots),)))
             return v.reshape(shots, len(modes))
 
